@@ -65,7 +65,9 @@ MANIFEST = {
             "(exact guard), the full refinement is refuted by four machine-checked witnesses that also fail on the real code (known finding); "
             "outside that class nothing downstream of the reader can change. Tied to the source every run by an AST translator (comment tables, "
             "per-type reader switch), byte-level differential execution of the real reader (exhaustive short files + alphabet pairs + random) and "
-            "a two-run relational oracle on the real parser and pint binary (payload replacement, block insertion). The bytes handed to "
+            "a two-run relational oracle on the real parser and pint binary (payload replacement, block insertion; payloads incl. non-ASCII text "
+            "ending in active yaml syntax; one pair in three embedded 1-2 times in literal block scalars with excluded lines shorter / "
+            "equal / longer than the block indentation). The bytes handed to "
             "yaml (CR LF -> LF since fix 670b316) are modelled as r_yaml, a function of the masked bytes. Four genuine defects are "
             "registered as known findings with class predicates (control comment in excluded text; directive column next to a comment; "
             "length inside a block scalar; excluded line of >= 511 bytes vs yaml.v3's comment lookahead); a known-class failure that the reader model does not explain is still reported as a violation.",
